@@ -1,7 +1,7 @@
 \* exhaustive, ALL actions together, deeper (thorough)
 CONSTANTS N = 4  Par = {"p", "q"}  NVal = 2  NGrid = 2  MaxDepth = 2  MaxLevel = 6
           GridSlot = "stack"  PickleSerial = "fresh"
-CONSTANTS Keeps <- KeepsSmall  Acts <- ActsAll  Parent0 <- ParentA  Cls0 <- ClsA
+CONSTANTS Keeps <- KeepsTwo  Acts <- ActsAll  Parent0 <- ParentA  Cls0 <- ClsA
           ParOf <- McParOf  GridCls <- McGridCls  MatCls <- McMatCls
 INIT Init
 NEXT Next
